@@ -70,6 +70,13 @@ func (c07) Plan(tier string, seed int64) []core.Scenario {
 		out = append(out, core.Sc("streams").WithN("s", 2).WithN("prod", 1).WithN("cons", 2).WithN("etype", 1).WithN("noise", 0).WithL([]int{l, 50}))
 		out = append(out, core.Sc("streams").WithN("s", 3).WithN("prod", 0).WithN("cons", 2).WithN("etype", 0).WithN("noise", 1).WithL([]int{l, 300, 2}))
 	}
+	ncs := 6
+	if tier == "thorough" {
+		ncs = 60
+	}
+	for i := 0; i < ncs; i++ {
+		out = append(out, core.Sc("cancel-sibling").WithN("pre", 1+i%4).WithN("subs", 2+i%3).WithN("noise", i%3))
+	}
 	nw := 12
 	if tier == "thorough" {
 		nw = 200
@@ -90,6 +97,8 @@ func (p c07) Run(sc core.Scenario) core.Result {
 		p.streams(sc, r)
 	case "w6":
 		p.w6(sc, r)
+	case "cancel-sibling":
+		p.cancelSibling(sc, r)
 	}
 	return r.Result()
 }
@@ -425,6 +434,68 @@ func (c07) streams(sc core.Scenario, r *core.R) {
 	r.Obs("streams", int64(S))
 	r.Sig(core.Log.Signature())
 	r.Sample(map[string]interface{}{"subscriptions": S, "lengths": sc.L, "producer": []string{"prefilled", "goroutine", "bursty", "slow"}[mode], "consumer": []string{"attentive", "slow", "one stalled then drained"}[cons], "element": []string{"struct", "int", "string", "[]byte", "*struct"}[etype], "frame_queue": sc.I("q")})
+}
+
+// cancelSibling: after some ordinary calls (request ids and channel ids have diverged) several endless
+// subscriptions are open; one subscriber cancels. The others keep receiving, in order, and stay open.
+func (c07) cancelSibling(sc core.Scenario, r *core.R) {
+	env := NewEnv(EnvOpt{})
+	defer env.Shutdown()
+	pol := noisePolicy(sc)
+	defer pol.Install()()
+	c, err := env.NewClient(ClientOpt{})
+	if err != nil {
+		r.Inconclusive("client: %v", err)
+		return
+	}
+	bg := context.Background()
+	for i := 0; i < sc.I("pre"); i++ {
+		t := Tok("p")
+		c.Echo(bg, t, "")
+	}
+	n := sc.I("subs")
+	toks := make([]string, n)
+	gots := make([]*got, n)
+	cancels := make([]context.CancelFunc, n)
+	for i := 0; i < n; i++ {
+		ctx, cancel := context.WithCancel(bg)
+		defer cancel()
+		cancels[i] = cancel
+		toks[i] = Tok("s")
+		ch, err := c.Sub(ctx, toks[i], 0, svc.SInfinite)
+		if err != nil {
+			r.Violate("subscribe-failed", "%v", err)
+			return
+		}
+		gots[i] = drainItems(ch, 20*time.Microsecond, -1, nil)
+	}
+	core.Eventually(core.Grace, func() bool { return gots[0].n() > 20 })
+	victim := n - 1
+	cancels[victim]()
+	if !core.WaitCh(gots[victim].done, core.Grace) {
+		r.Violate("stream-not-closed", "the cancelled subscription did not close")
+	}
+	// a round trip, then every surviving stream must still be open and make progress
+	p := Tok("p")
+	c.Echo(bg, p, "")
+	for i := 0; i < victim; i++ {
+		before := gots[i].n()
+		if gots[i].isClosed() || !core.Eventually(core.Grace, func() bool { return gots[i].n() > before+50 || gots[i].isClosed() }) || gots[i].isClosed() {
+			r.Violate("stream-truncated", "subscription %d of %d ended (or stopped delivering) after ANOTHER subscription's context was cancelled: closed=%v received=%d; %d ordinary calls preceded the subscriptions", i, n, gots[i].isClosed(), gots[i].n(), sc.I("pre"))
+		}
+		if env.Svc.Get(toks[i]).Ctx.Err() != nil {
+			r.Violate("stream-truncated", "the handler context of subscription %d was cancelled by the cancel of subscription %d", i, victim)
+		}
+	}
+	for i := 0; i < victim; i++ {
+		cancels[i]()
+		core.WaitCh(gots[i].done, core.Grace)
+		checkSeq(r, "cancel-sibling", toks[i], gots[i].snapshot(), int(env.Svc.Get(toks[i]).Sent)+1, false)
+	}
+	r.Key(fmt.Sprintf("cancel-sibling pre=%d subs=%d", sc.I("pre"), n), true)
+	r.Obs("streams", int64(n))
+	r.Sig(core.Log.Signature())
+	r.Sample(map[string]interface{}{"scenario": "one of several endless subscriptions is cancelled", "ordinary_calls_before": sc.I("pre"), "subscriptions": n})
 }
 
 // w6: a value forward is parked (ws.chan.fwd) while another channel registers and sends its first value.
